@@ -100,6 +100,12 @@ def check_mono(c):
                       lambda: 'func_get_full deviates by %.3e (tol %.1e)' % (np.abs(got - want).max(), T), tags)
             z = teneva.func_get_full(Xout, Ad, a, b, z=-7.5)
             res.check(np.all(z[:3] == -7.5), 'full.outside', case, lambda: 'outside points got %s' % z[:3], tags)
+            # a batch in another order, with repeated points and with outside points in between: value by value the same answers
+            pick = list(range(len(X)))[::-1] + [0, 0, len(X) - 1]
+            Xm = np.vstack([X[pick[:2]], Xout[:1], X[pick[2:]], Xout[1:2]])
+            wm = np.concatenate([got[pick[:2]], [-7.5], got[pick[2:]], [-7.5]])
+            gm = teneva.func_get_full(Xm, Ad, a, b, z=-7.5)
+            res.check(np.array_equal(gm, wm), 'full.batch_order', case, 'func_get_full on a reordered batch with repeats and outside points differs row by row', tags)
             for zi in (0, -7, np.int64(3)):                                  # integer-typed fill value: inside points untouched, outside get it
                 gi = teneva.func_get_full(np.vstack([X, Xout[:3]]), Ad, a, b, z=zi)
                 res.check(np.abs(gi[:len(X)] - want).max() <= T and np.all(gi[len(X):] == zi), 'full.fill_int', dict(case, z=int(zi)),
@@ -138,6 +144,9 @@ def check_mono(c):
                 res.check(np.ndim(one) == 0 and abs(one - want[1]) <= T, 'tt.get.single', case, 'single point differs', tags)
                 z = teneva.func_get(Xout, A, a, b, z=-7.5)
                 res.check(np.all(z[:3] == -7.5), 'tt.outside', case, lambda: 'outside points got %s' % z[:3], tags)
+                wm2 = np.concatenate([got[pick[:2]], [-7.5], got[pick[2:]], [-7.5]])
+                gm2 = teneva.func_get(Xm, A, a, b, z=-7.5)
+                res.check(np.array_equal(gm2, wm2), 'tt.batch_order', case, 'func_get on a reordered batch with repeats and outside points differs row by row', tags)
                 for zi in (0, -7, np.int64(3)):
                     gi = teneva.func_get(np.vstack([X, Xout[:3]]), A, a, b, z=zi)
                     res.check(np.abs(gi[:len(X)] - want).max() <= T and np.all(gi[len(X):] == zi), 'tt.fill_int', dict(case, z=int(zi)),
